@@ -558,7 +558,6 @@ func cbeElemBytes(t events.ArrayType, n uint64) uint64 {
 	return byteCountFor(t, n)
 }
 
-
 // ---------------------------------------------------------------------------
 // Correspondence families (model vs implementation), shared by the CBE properties
 
@@ -609,11 +608,7 @@ func (k *cbeCorr) addEnc(es []Ev, label string) ([]byte, bool) {
 
 // addDec decodes the documents (child process) and records the observations as model cases.
 func (k *cbeCorr) addDec(docs [][]byte, label string) []ChildDecodeResult {
-	t0 := time.Now()
 	res := DecodeInChild(docs, ChildDecodeOpts{})
-	if os.Getenv("CBE_TIMING") != "" {
-		fmt.Fprintf(os.Stderr, "addDec %s: %d docs %v\n", label, len(docs), time.Since(t0))
-	}
 	for i, r := range res {
 		switch {
 		case r.Killed:
@@ -975,8 +970,8 @@ func cbeDecFamilies(c *Ctx, k *cbeCorr, pristine [][]byte, nMut, nTruncDocs, nRa
 	}
 	for i := 0; i < nTruncDocs && i < len(cand); i++ {
 		d := cand[(i*7+3)%len(cand)]
-		if len(d) > 150 {
-			d = d[:150]
+		if len(d) > 80 {
+			d = d[:80]
 		}
 		for n := 0; n < len(d); n++ {
 			tr = append(tr, d[:n])
@@ -1018,7 +1013,7 @@ func cbeDecFamilies(c *Ctx, k *cbeCorr, pristine [][]byte, nMut, nTruncDocs, nRa
 			cd, cm = append(cd, d), append(cm, uint64(m))
 		}
 		nlim++
-		if nlim >= 5 {
+		if nlim >= 3 {
 			break
 		}
 	}
